@@ -58,12 +58,13 @@ fn module(ctx: Arc<Ctx>) -> RpcModule<Arc<Ctx>> {
 			"reject" => {
 				t.ev(json!({"ev": "HReject", "k": k}));
 				pending.reject(ErrorObjectOwned::owned(1, "rejected", None::<()>)).await;
-				return SubscriptionCloseResponse::None;
+				// a closing value returned by a handler whose subscription was never accepted must be discarded
+				return closing_value(script.closing);
 			}
 			"drop" => {
 				t.ev(json!({"ev": "HDropPending", "k": k}));
 				drop(pending);
-				return SubscriptionCloseResponse::None;
+				return closing_value(script.closing);
 			}
 			_ => {
 				t.ev(json!({"ev": "HAcceptStart", "k": k}));
@@ -119,14 +120,18 @@ fn module(ctx: Arc<Ctx>) -> RpcModule<Arc<Ctx>> {
 			drop(s);
 		}
 		t.ev(json!({"ev": "HReturn", "k": k, "closing": script.closing}));
-		if script.closing {
-			SubscriptionCloseResponse::Notif(SubscriptionMessage::from(serde_json::value::to_raw_value(&"bye").unwrap()))
-		} else {
-			SubscriptionCloseResponse::None
-		}
+		closing_value(script.closing)
 	})
 	.unwrap();
 	m
+}
+
+fn closing_value(closing: bool) -> SubscriptionCloseResponse {
+	if closing {
+		SubscriptionCloseResponse::Notif(SubscriptionMessage::from(serde_json::value::to_raw_value(&"bye").unwrap()))
+	} else {
+		SubscriptionCloseResponse::None
+	}
 }
 
 fn gen_script(rng: &mut StdRng) -> HScript {
